@@ -22,15 +22,22 @@ def sec_to_public_pair(
     byte_count = (generator.p().bit_length() + 7) >> 3 if generator else (len(sec) - 1)
     x = from_bytes_32(sec[1 : 1 + byte_count])
     sec0 = sec[:1]
+    # a coordinate is a field element: a value >= p would be a second encoding of the point
+    # with the reduced coordinate (contains_point and points_for_x reduce modulo p)
+    p = generator.p() if generator else None
     if len(sec) == 1 + byte_count * 2:
         isok = sec0 == b"\4"
         if not strict:
             isok = isok or (sec0 in [b"\6", b"\7"])
         if isok:
             y = from_bytes_32(sec[1 + byte_count : 1 + 2 * byte_count])
+            if p is not None and (x >= p or y >= p):
+                raise EncodingError("sec coordinate not below the field prime")
             return (x, y)
     elif len(sec) == 1 + byte_count:
         if not strict or (sec0 in (b"\2", b"\3")):
+            if p is not None and x >= p:
+                raise EncodingError("sec coordinate not below the field prime")
             is_y_odd = sec0 != b"\2"
             assert generator is not None
             return cast(tuple[int, int], generator.points_for_x(x)[is_y_odd])
